@@ -94,6 +94,35 @@ func (vc *VC) Run() {
 			vc.addFact("assume", t)
 		}
 	}
+	// nocall: the function contains no call whose callee name contains the given text
+	if vc.fc != nil {
+		for _, nc := range vc.fc.NoCalls {
+			hit := ""
+			for _, b := range fn.Blocks {
+				for _, ins := range b.Instrs {
+					if ci, ok := ins.(ssa.CallInstruction); ok {
+						key, cf, disp := vc.calleeKey(ci.Common())
+						full := key + " " + disp
+						if cf != nil {
+							full += " " + cf.String()
+						}
+						if strings.Contains(full, nc) {
+							hit = disp
+						}
+					}
+				}
+			}
+			cond := "true"
+			if hit != "" {
+				cond = "false"
+			}
+			o := vc.obligeG("nocall", nc, "true", cond, fn.Pos())
+			if hit != "" {
+				o.Result, o.Solver = "sat", "syntactic"
+				o.Model = "the function calls " + hit
+			}
+		}
+	}
 	vc.registerKeys()
 	vc.reach[0] = "true"
 	order := vc.rpo()
